@@ -103,6 +103,32 @@ def gen_cases(tier, seed):
         cid = f'C13-{tier[0]}{seed}-{k:05d}-{kind}'
         base = {'id': cid, 'kind': kind, 'mseed': r.randrange(1 << 30),
                 'dims': list(r.choice([(2, 2), (2, 3), (3, 2)]))}
+        if kind == 'frac' and r.random() < 0.08:
+            # a remainder that is antisymmetric under a contracted permutation
+            # which leaves the denominator unchanged, and a numerator that is
+            # not symmetric in the permuted indices
+            big = r.choice(['V', 'd'])
+            objs = [{'t': 'anti', 'name': big, 'up': ['i', 'j'],
+                     'lo': ['a', 'b'], 'bk': 0},
+                    {'t': 'non', 'name': 'z', 'up': ['i']},
+                    {'t': 'non', 'name': 'z', 'up': ['j']}]
+            tgs = ['a', 'b']
+            if r.random() < 0.5:
+                objs.append({'t': 'non', 'name': 'x', 'up': ['a', 'b']})
+                tgs = []
+            den = [['1', 'i'], ['1', 'j'], ['-1', 'a'], ['-1', 'b']]
+            objs.append({'t': 'br', 'e': den, 'exp': -r.choice([1, 1, 2])})
+            if r.random() < 0.3:
+                objs.append({'t': 'br', 'e': [['1', 'i'], ['1', 'j']],
+                             'exp': -1})
+            num = [[r.choice(['1', '2', '-1', '1/2']), 'i']]
+            if r.random() < 0.4:
+                num.append([r.choice(['1', '-1']), r.choice(['a', 'j'])])
+            objs.append({'t': 'br', 'e': num, 'exp': 1})
+            t = {'pref': r.choice(['1', '-1/2', '2/3']), 'objs': objs}
+            base.update(terms=[t], targets=tgs)
+            cases.append(base)
+            continue
         if kind == 'frac':
             t = _frac_term(r, g)
             if t is None:
